@@ -150,6 +150,9 @@ class InputGen:
         world["gaps"] = [r.choice([0, 0, 500, 2000, 61000, 1000000]) for _ in range(passes)]
         if r.random() < 0.5:
             world["boot_us"] = r.choice([1000, 59000, 300000])
+        if r.random() < 0.15:
+            # the millisecond counter wraps during the run
+            world["millis_base"] = 2 ** 64 - r.choice([1, 30, 45, 100, 1000, 5000, 70000])
         return {
             "script": HEAD + "\n".join(lines) + "\n",
             "world": world,
@@ -245,6 +248,8 @@ class E4Inputs(Engine):
         faults["boot_offset" if w.get("boot_us") else "boot_at_zero"] = 1
         if any(g >= 1000000 for g in w.get("gaps", [])):
             faults["clock_jump"] = 1
+        if w.get("millis_base"):
+            faults["millis_wraparound"] = 1
         if any(seq and any(v in (0, 1023) for v in seq) for seq in w.get("ain", {}).values()):
             faults["adc_extreme"] = 1
         return Outcome("ok", digest=sha(repr(ser))[:16], nontrivial=len(ser) > case["world"]["passes"], sim_ms=tr.end_ms, faults=faults,
@@ -376,8 +381,8 @@ class E4Inputs(Engine):
                     attempts_in_call += 1
                     if attempts_in_call > 3 * calls_per_statement:
                         return ("sonar-retries", f"more than three trigger attempts per measure_distance() call on echo pin {s['echo']}")
-                    if stored_ms is not None and stored_ms >= 1 and last_millis is not None and last_millis - stored_ms < 60:
-                        return ("sonar-spacing", f"sensor on echo pin {s['echo']} triggered {last_millis - stored_ms} ms after the previous attempt (millis {stored_ms} -> {last_millis})")
+                    if stored_ms is not None and stored_ms >= 1 and last_millis is not None and (last_millis - stored_ms) % 2 ** 64 < 60:
+                        return ("sonar-spacing", f"sensor on echo pin {s['echo']} triggered {(last_millis - stored_ms) % 2 ** 64} ms after the previous attempt (millis {stored_ms} -> {last_millis})")
                     stored_ms = -1  # filled by the next MILLIS event
                     continue
                 if kind == "MILLIS" and stored_ms == -1:
